@@ -335,9 +335,9 @@ Lemma forallb_map_id : forall (f : Z -> bool) l, forallb (fun b => b) (map f l) 
 Proof. intros f l; induction l as [|x l IH]; cbn; [reflexivity | rewrite IH; reflexivity]. Qed.
 
 Theorem doc_ready_bridge : forall g t,
-  is_ready_to_run (tg_terminal g t) (map (tg_complete g) (tg_parents g t)) (tg_state g t) = doc_ready g t.
+  is_ready_to_run (tg_complete g) (tg_state g) (tg_terminal g t) (tg_parents g t) (tg_state g t) = doc_ready g t.
 Proof.
-  intros g t. unfold is_ready_to_run, doc_ready. rewrite existsb_map_id, forallb_map_id. reflexivity.
+  intros g t. unfold is_ready_to_run, doc_ready, is_cancelled. rewrite existsb_map_id, forallb_map_id. reflexivity.
 Qed.
 
 Theorem doc_releasable_bridge : forall g, tg_releasable g = doc_releasable g.
